@@ -43,6 +43,55 @@ def inject_vars(schema, ty, lit, t, newvar, depth=0):
     return lit
 
 
+TEMPORAL_TEXTS = ["2020-02-03T04:05:06", "2020-02-03", "04:05:06", "2020-02-03 04:05:06", "2020-02-03T04:05:06.250", "2020-02-03T04:05:06+02:00",
+                  "2020-02-03T04:05:06Z", "20200203T040506", "2020-2-3", "4:5:6", "04:05", "2020-02-30", "24:00:00", "", "now", " 2020-02-03 ",
+                  "2020-02-03T04:05", "0001-01-01", "9999-12-31T23:59:59"]
+
+
+def builtin_temporal_scalars(seed):
+    """The engine's own Date / Time / DateTime scalars as argument types: whatever they accept, the same text written
+    as a literal and passed through a variable is either delivered as the same value both ways or refused both ways
+    (no model of the formats is needed for 'literal = variable')."""
+    from simv.actors import forget
+    from simv.oracle import V
+    from simv.simloop import SimLoop, run_sim
+    from tartiflette import Resolver, create_engine
+    name = "C05_%d_temporal" % seed
+    seen = {}
+
+    for fld in ("d", "t", "dt"):
+        def make(fld=fld):
+            async def res(parent, args, ctx, info):
+                seen[ctx["k"]] = repr(args.get("v"))
+                return "ok"
+            return res
+        Resolver("Query.%s" % fld, schema_name=name)(make())
+    out = []
+    try:
+        loop = SimLoop(Tape(seed).sub("temporal"), "fifo", 0, "none")
+        engine = run_sim(loop, create_engine("type Query { d(v: Date): String t(v: Time): String dt(v: DateTime): String }", schema_name=name))
+        import json as _json
+        for fld, ty in (("d", "Date"), ("t", "Time"), ("dt", "DateTime")):
+            for text in TEMPORAL_TEXTS:
+                results = {}
+                for spelling in ("literal", "variable"):
+                    k = (fld, text, spelling)
+                    if spelling == "literal":
+                        q, v = "{ %s(v: %s) }" % (fld, _json.dumps(text)), None
+                    else:
+                        q, v = "query($v: %s) { %s(v: $v) }" % (ty, fld), {"v": text}
+                    lp = SimLoop(Tape(seed).sub("temporal_run"), "fifo", 0, "none")
+                    resp = run_sim(lp, engine.execute(q, variables=v, context={"k": k}))
+                    results[spelling] = seen.get(k) if (isinstance(resp, dict) and not resp.get("errors")) else "<refused>"
+                if results["literal"] != results["variable"]:
+                    out.append(V("literal_differs_from_variable", "built-in scalar %s, text %r: as a literal %s, through a variable %s" % (
+                        ty, text, results["literal"], results["variable"]), scalar=ty))
+                    break
+    finally:
+        forget(name)
+    return out[:3]
+
+
 def run_one(seed, preset=None, tier="quick", want_case=False):
     tape = Tape(seed, preset)
     cfgt = tape.sub("cfg")
@@ -180,6 +229,14 @@ def run_one(seed, preset=None, tier="quick", want_case=False):
                    "single_value_for_list": int(nullable(ty)[0] == "L" and S[0] not in ("list", "null")),
                    "float_literal_beyond_ieee": int(out_huge is not None)}
     r["faults"] = {"runtime_null_for_non_null_argument": int(S[0] != "null")}
+    if seed % 25 == 0:
+        bv = builtin_temporal_scalars(seed)
+        r["probes"]["builtin_date_time_scalars_literal_vs_variable"] = 1
+        if bv:
+            viol.extend(bv)
+            r["viol"] = viol
+            r["nontrivial"] = False
+            r.setdefault("tape", tape.snapshot())
     if want_case or viol:
         c = case.render()
         c["engine_config"] = cfg
